@@ -38,6 +38,8 @@ def site_stmt(site, a):
         "nested-call": "lda #defined(defined(nosuch))", "macro-recursion": ".macro rm() { rm() }\nrm()",
         "macro-mutual": ".macro ra() { rb() }\n.macro rb() { ra() }\nra()",
         "mixed-types": '.byte 7\n.byte 1 + "a"\n.byte 8', "mixed-types-insn": 'lda #"a" * 2\nrts', "macro-value": ".macro mv() { nop }\n.byte mv\n.byte 8",
+        "deep-braces": "{" * 500 + "nop" + "}" * 500, "deep-parens": ".byte " + "(" * 1000 + "1" + ")" * 1000,
+        "long-chain": ".byte " + "+".join(["1"] * 6000), "nested-calls": ".byte " + "zf(" * 40 + "1" + ")" * 40, "unclosed-parens": "lda " + "(" * 40 + "1",
         "seg-start-string": '.define segment { name = "zs" start = "hello" }\n.segment "zs" { zl: nop }',
         "macro-recursion-untaken": ".macro ru() {\nnop\n.if 0 { ru() }\n}\nru()",
         "macro-mutual-untaken": ".macro rx() {\nnop\n.if 0 { ry() } else { inx }\n}\n.macro ry() { rx() }\nrx()",
@@ -196,7 +198,14 @@ def main(tier):
         os.makedirs(d)
         open(os.path.join(d, "mos.toml"), "w").write('[build]\nentry = "main.asm"\n')
         kind = i % 4
-        if kind == 0:
+        # the first cases are texts whose SIZE is the hazard (recursion depth, operator chains): only the real binary
+        # has the real stack
+        big = [b"{" * 2000 + b"nop" + b"}" * 2000 + b"\n", b".byte " + b"(" * 3000 + b"1" + b")" * 3000 + b"\n",
+               b".byte " + b"+".join([b"1"] * 20000) + b"\n", b"{\n" * 400 + b"lda #" + b"(" * 90 + b"1" + b")" * 90 + b"\n" + b"}\n" * 400,
+               b".macro m() {\n" + b".if 1 {\n" * 90 + b"nop\n" + b"}\n" * 90 + b"}\nm()\n"]
+        if i < len(big):
+            data = big[i]
+        elif kind == 0:
             data = bytes(rnd.randrange(256) for _ in range(rnd.randrange(1, 200)))
         elif kind == 1:
             data = b"lda #1\n\xff\xfe nop\n" + bytes(rnd.randrange(128, 256) for _ in range(8))
@@ -210,6 +219,10 @@ def main(tier):
             p = subprocess.run([mos, "--no-color", "-e", "Short", "build"], cwd=d, capture_output=True, timeout=30)
             rc, hung = p.returncode, False
             outp = p.stdout.decode("utf-8", "replace")
+            if rc in (0, 1) and i < len(big):          # the formatter walks the same tree
+                p2 = subprocess.run([mos, "--no-color", "-e", "Short", "format"], cwd=d, capture_output=True, timeout=30)
+                if p2.returncode not in (0, 1):
+                    rc, outp = p2.returncode, p2.stdout.decode("utf-8", "replace")
         except subprocess.TimeoutExpired:
             rc, hung, outp = -9, True, ""
         end = "hang" if hung else ("done" if rc in (0, 1) else ("panic" if rc == 101 else "abort"))
